@@ -71,6 +71,29 @@ def confirm_timeout(make_parser, text, lines=300000):
         sys.settrace(None)
 
 
+def traced_parse(p, text, lines=300000):
+    """the evaluation under a budget of executed lines instead of seconds (deterministic: a busy machine or a long pause of
+    the garbage collector is not a formula that does not return); returns (record or None, raised, budget exceeded)"""
+    n = [0]
+
+    def tr(frame, event, arg):
+        if event == 'line':
+            n[0] += 1
+            if n[0] > lines:
+                raise Budget()
+        return tr
+    sys.settrace(tr)
+    try:
+        rec = p.parse(text)
+        return rec, False, False
+    except Budget:
+        return None, False, True
+    except BaseException:
+        return None, True, False
+    finally:
+        sys.settrace(None)
+
+
 def isolated_batch(texts, per_input=8.0):
     """parse texts in a child process; returns [(record-outcome or None, raised, timed_out)]"""
     import select
@@ -217,10 +240,16 @@ def run_schedule(lib, B, t, bs, debug=False, seconds=0.5):
     if 'fn' in bmap:
         spec = False
     text = F.render(ast)
-    rec, raised, timed = guarded_parse(p, text, seconds)
-    if timed and seconds < 5:
+    if seconds is None:
+        rec, raised, timed = traced_parse(p, text)
+    else:
+        rec, raised, timed = guarded_parse(p, text, seconds)
+    if timed and seconds is not None and seconds < 5:
         # a stalled process is not a formula that does not return: once more, from scratch, with ten times the budget
         return run_schedule(lib, B, t, bs, debug, seconds=5.0)
+    if timed and seconds is not None:
+        # and if that was not enough either, once more under a budget of executed lines, which no load can exhaust
+        return run_schedule(lib, B, t, bs, debug, seconds=None)
     return observation('fault', text, rec, raised, timed, spec=spec, ast=ast, env=env,
                        extra={'template': t, 'behaviours': [describe(B[b]) for b in bs[:len(points)]], 'debug': debug})
 
